@@ -35,9 +35,13 @@ After(o, c) == /\ st[o] = "done" /\ ok[o] /\ ~nested[o] /\ c = conn[o]
                /\ st' = [st EXCEPT ![o] = "after"] /\ na' = [na EXCEPT ![o] = @ + 1]
                /\ sigconn' = [sigconn EXCEPT ![o] = @ \cup {c}]
                /\ UNCHANGED <<nested, ok, conn, nb>>
+\* (a call that is cancelled while its `before' subscribers are still running returns -- unsuccessfully -- without effect)
 Ret(o, r) == /\ r = ok[o]
-             /\ st[o] = (IF ~nested[o] /\ ok[o] THEN "after" ELSE "done")
-             /\ st' = [st EXCEPT ![o] = "ret"] /\ UNCHANGED <<nested, ok, conn, nb, na, sigconn>>
+             /\ \/ /\ st[o] = (IF ~nested[o] /\ ok[o] THEN "after" ELSE "done")
+                   /\ st' = [st EXCEPT ![o] = "ret"]
+                \/ /\ ~r /\ st[o] \in {"called", "before"}
+                   /\ st' = [st EXCEPT ![o] = "aborted"]
+             /\ UNCHANGED <<nested, ok, conn, nb, na, sigconn>>
 
 Next == \E o \in Ops : \/ \E n \in BOOLEAN : Call(o, n)
                        \/ \E c \in Conns : Before(o, c) \/ After(o, c)
@@ -46,7 +50,8 @@ Spec == Init /\ [][Next]_vars
 
 OncePerOp == \A o \in Ops : nb[o] <= 1 /\ na[o] <= 1
 BeforePrecedesEffect == \A o \in Ops : (st[o] \in {"eff", "done", "after", "ret"} /\ ~nested[o]) => nb[o] = 1
-AfterIffSuccess == \A o \in Ops : st[o] = "ret" => (na[o] = (IF ok[o] /\ ~nested[o] THEN 1 ELSE 0))
+AfterIffSuccess == \A o \in Ops : /\ (st[o] = "ret" => (na[o] = (IF ok[o] /\ ~nested[o] THEN 1 ELSE 0)))
+                                   /\ (st[o] = "aborted" => na[o] = 0)
 NestedSilent == \A o \in Ops : nested[o] => (nb[o] = 0 /\ na[o] = 0)
 RightConnection == \A o \in Ops : sigconn[o] \subseteq {conn[o]}
 =============================================================================
